@@ -32,6 +32,11 @@ type c19World struct {
 	aggSig    [][]byte // per msg: aggregate over all keys
 	manySig   []byte   // sum of sigs[k][k%len(msgs)]
 	batchSigs [][]byte
+	// a second batch with entries the library rejects before the pairing (identity key, signatures of
+	// the wrong length): ONE list of keys and ONE list of signatures shared by all goroutines
+	b2Pks  []crypto.PublicKey
+	b2Sigs []crypto.Signature
+	b2Want []bool
 	batchWant []bool
 	pkBytes   [][]byte // encodings of pks, taken before the storm objects were created
 	ecSks     [2]crypto.PrivateKey
@@ -103,6 +108,18 @@ func newC19World(r *rand.Rand) *c19World {
 		w.batchSigs = append(w.batchSigs, s)
 		w.batchWant = append(w.batchWant, ok)
 	}
+	for k := range w.sks {
+		w.b2Pks = append(w.b2Pks, w.pks[k])
+		w.b2Sigs = append(w.b2Sigs, w.sigs[k][1])
+		w.b2Want = append(w.b2Want, true)
+	}
+	w.b2Pks[1] = crypto.IdentityBLSPublicKey() // valid signature next to an identity key
+	w.b2Want[1] = false
+	w.b2Sigs[3] = withSpare(w.sigs[3][1][:47]) // truncated
+	w.b2Want[3] = false
+	w.b2Pks = append(w.b2Pks, w.pks[0], w.pks[2])
+	w.b2Sigs = append(w.b2Sigs, withSpare(nil), withSpare(append(append([]byte{}, w.sigs[2][1]...), 0)))
+	w.b2Want = append(w.b2Want, false, false)
 	for i, a := range []crypto.SigningAlgorithm{crypto.ECDSAP256, crypto.ECDSASecp256k1} {
 		w.ecSks[i], _ = crypto.GeneratePrivateKey(a, mon.RandBytes(r, 32))
 		_ = w.ecSks[i].PublicKey()
@@ -145,6 +162,10 @@ func (w *c19World) fingerprint(after bool) string {
 	for _, s := range w.batchSigs {
 		add(s)
 	}
+	for i, s := range w.b2Sigs {
+		addFull(s) // the list elements themselves (length, bytes, spare capacity) as the callers see them
+		add(w.b2Pks[i].Encode())
+	}
 	for i := range w.ecSks {
 		add(w.ecSks[i].Encode())
 		add(w.ecSks[i].PublicKey().Encode())
@@ -158,7 +179,7 @@ func (w *c19World) fingerprint(after bool) string {
 	return fmt.Sprintf("%x", h.Sum(nil))
 }
 
-var c19Ops = []string{"kmac.ComputeHash", "bls.Sign", "bls.Verify", "BLSVerifyPOP", "SPOCKVerify", "VerifyOneMessage", "VerifyManyMessages", "BatchVerify", "ecdsa.Sign", "ecdsa.Verify"}
+var c19Ops = []string{"kmac.ComputeHash", "bls.Sign", "bls.Verify", "BLSVerifyPOP", "SPOCKVerify", "VerifyOneMessage", "VerifyManyMessages", "BatchVerify", "ecdsa.Sign", "ecdsa.Verify", "BatchVerify-with-rejected-entries"}
 
 func (w *c19World) doOp(run *mon.Run, r *rand.Rand, op int, local [2]hash.Hasher) string {
 	mi := r.IntN(len(w.msgs))
@@ -238,6 +259,21 @@ func (w *c19World) doOp(run *mon.Run, r *rand.Rand, op int, local [2]hash.Hasher
 		res, err := crypto.BatchVerifyBLSSignaturesOneMessage(w.pks, toSigs(w.batchSigs), w.msgs[0], w.xof)
 		if err != nil || fmt.Sprint(res) != fmt.Sprint(w.batchWant) {
 			return fmt.Sprintf("concurrent BatchVerify = (%v,%v), alone it returns %v", res, err, w.batchWant)
+		}
+	case 10:
+		if r.IntN(2) == 0 {
+			res, err := crypto.BatchVerifyBLSSignaturesOneMessage(w.b2Pks, w.b2Sigs, w.msgs[1], w.xof)
+			if err != nil || fmt.Sprint(res) != fmt.Sprint(w.b2Want) {
+				return fmt.Sprintf("concurrent BatchVerify (shared lists with an identity key and wrong-length signatures) = (%v,%v), alone it returns %v", res, err, w.b2Want)
+			}
+		} else {
+			// the entries of the shared lists as another goroutine uses them in the meantime
+			i := r.IntN(len(w.b2Sigs))
+			ok, err := w.b2Pks[i].Verify(w.b2Sigs[i], w.msgs[1], w.xof)
+			want := w.b2Want[i]
+			if err != nil || ok != want {
+				return fmt.Sprintf("Verify of entry %d of the lists shared with concurrent batch verifications = (%v,%v), alone it returns %v", i, ok, err, want)
+			}
 		}
 	case 8:
 		ci := r.IntN(2)
